@@ -13,7 +13,13 @@ import (
 // in the explicit Case, so execution never consults a PRNG.
 
 var fieldPool = []string{"a", "b", "c", "all", "so", "Z", "~t", "f", "a_rather_long_field_name_to_get_multibyte_lengths_in_the_fields_section_0123456789",
-	"n" + strings.Repeat("_200_byte_field_name", 10)}
+	"n" + strings.Repeat("_200_byte_field_name", 10),
+	// several names sorting before "_id", the empty name, "_id" itself as an
+	// ordinary field (multi-token identifiers), names around 57-62 and 127-129 bytes
+	"A", "0", "_all", "", "_id",
+	"w" + strings.Repeat("x", 56), "w" + strings.Repeat("y", 58), "w" + strings.Repeat("z", 59), "w" + strings.Repeat("q", 61),
+	"v" + strings.Repeat("1", 126), "v" + strings.Repeat("2", 127), "v" + strings.Repeat("3", 128),
+}
 
 // vocabulary: empty, shared prefixes, binary, high bytes, long; no 0xff (doc
 // value contract) except the last entry, which is only used in non-DV fields.
@@ -23,7 +29,8 @@ var vocab = []string{
 }
 
 // extreme terms, used only when a case draws the "extremes" switch
-var vocabExtreme = []string{strings.Repeat("very-long-term/", 70), strings.Repeat("x", 128), strings.Repeat("y", 127), "a\x00", "ab\x00\x00"}
+var vocabExtreme = []string{strings.Repeat("very-long-term/", 70), strings.Repeat("x", 128), strings.Repeat("y", 127), "a\x00", "ab\x00\x00",
+	strings.Repeat("k", 16382), strings.Repeat("k", 16383), strings.Repeat("k", 16384), strings.Repeat("j", 65535)}
 
 const vocabNoFF = 17 // vocab[:vocabNoFF] contains no 0xff byte
 
@@ -62,6 +69,7 @@ func (o *WorldOpts) defaults() {
 }
 
 type schema struct {
+	mixedDV bool // some instances of doc-value fields opt out of doc values
 	noXXL   bool // set while generating templates of repeated blocks
 	extreme bool
 	fields  []string
@@ -76,9 +84,13 @@ func genSchema(t *rapid.T, o *WorldOpts) *schema {
 	if o.FewFields {
 		nf = rapid.IntRange(1, 2).Draw(t, "nfields2")
 	}
-	start := rapid.IntRange(0, len(fieldPool)-1).Draw(t, "field0")
 	for i := 0; i < nf; i++ {
-		s.fields = append(s.fields, fieldPool[(start+i*2)%len(fieldPool)])
+		// the first nine names are the common ones; the rest are the unusual ones
+		if rapid.IntRange(0, 3).Draw(t, "unusualname") == 0 {
+			s.fields = append(s.fields, fieldPool[rapid.IntRange(9, len(fieldPool)-1).Draw(t, "fieldx")])
+		} else {
+			s.fields = append(s.fields, fieldPool[rapid.IntRange(0, 8).Draw(t, "field")])
+		}
 	}
 	seen := map[string]bool{}
 	w := 0
@@ -99,12 +111,16 @@ func genSchema(t *rapid.T, o *WorldOpts) *schema {
 			s.dv[f] = true
 		}
 	}
+	if rapid.IntRange(0, 7).Draw(t, "iddv") == 0 {
+		s.dv[model.IDField] = true // the injected _id field is indexed with doc values too
+	}
+	s.mixedDV = rapid.IntRange(0, 3).Draw(t, "mixeddv") == 0
 	// swarm switch "extremes" (rare): value ranges ordinary cases never reach -
 	// >127 fields (two-byte field ids), 32-bit-wide frequencies, positions and
 	// offsets, kilobyte terms, 70 kB / 200 kB stored values
 	s.extreme = !o.NoExtremes && rapid.IntRange(0, 59).Draw(t, "extremes") == 0
 	if s.extreme && rapid.IntRange(0, 2).Draw(t, "manyfields") == 0 {
-		n := rapid.SampledFrom([]int{126, 127, 128, 129, 130, 260}).Draw(t, "nmany")
+		n := rapid.SampledFrom([]int{62, 63, 64, 65, 66, 126, 127, 128, 129, 130, 260}).Draw(t, "nmany")
 		for i := 0; i < n; i++ {
 			name := fmt.Sprintf("m%03d", i)
 			s.fields = append(s.fields, name)
@@ -133,8 +149,10 @@ func genSchema(t *rapid.T, o *WorldOpts) *schema {
 
 func (s *schema) dvList() []string {
 	var out []string
-	for _, f := range s.fields {
-		if s.dv[f] {
+	seen := map[string]bool{}
+	for _, f := range append([]string{model.IDField}, s.fields...) {
+		if s.dv[f] && !seen[f] {
+			seen[f] = true
 			out = append(out, f)
 		}
 	}
@@ -158,6 +176,17 @@ func genValue(t *rapid.T, s *schema) model.Bytes {
 	}
 	seed := rapid.IntRange(0, 255).Draw(t, "valseed")
 	b := make(model.Bytes, n)
+	if n >= 64 && rapid.IntRange(0, 3).Draw(t, "noise") == 0 {
+		// incompressible, deterministic content (xorshift)
+		x := uint64(seed)*2654435761 + 88172645463325252
+		for i := range b {
+			x ^= x << 13
+			x ^= x >> 7
+			x ^= x << 17
+			b[i] = byte(x >> 24)
+		}
+		return b
+	}
 	for i := range b {
 		// mildly compressible, deterministic content
 		b[i] = byte('a' + (seed+i*i/3)%23)
@@ -228,12 +257,22 @@ func genField(t *rapid.T, s *schema) model.Field {
 		f.Store = true
 		f.Val = genValue(t, s)
 	}
+	if s.mixedDV && s.dv[f.Name] && rapid.IntRange(0, 2).Draw(t, "nodv") == 0 {
+		f.NoDV = true
+	}
 	return f
 }
 
 func genDoc(t *rapid.T, s *schema) model.Doc {
 	nf := rapid.IntRange(0, 4).Draw(t, "ndocfields")
 	d := model.Doc{}
+	if len(s.fields) > 20 && rapid.IntRange(0, 1).Draw(t, "edgefields") == 0 {
+		// worlds with very many fields: exercise the highest field ids
+		for _, name := range []string{s.fields[len(s.fields)-1], s.fields[len(s.fields)-2]} {
+			f := model.Field{Name: name, Terms: []model.Term{{T: model.Bytes("edge"), N: 1}}, Store: true, Val: genValue(t, s)}
+			d.Fields = append(d.Fields, f)
+		}
+	}
 	for i := 0; i < nf; i++ {
 		d.Fields = append(d.Fields, genField(t, s))
 	}
@@ -328,6 +367,9 @@ func genDrop(t *rapid.T) Drop {
 func genMergeDef(t *rapid.T, idx int) *MergeDef {
 	md := &MergeDef{}
 	nin := rapid.IntRange(1, 4).Draw(t, "nin")
+	if rapid.IntRange(0, 39).Draw(t, "zeroinputs") == 0 {
+		nin = 0 // a merge over no segments at all writes an empty segment
+	}
 	for i := 0; i < nin; i++ {
 		md.In = append(md.In, rapid.IntRange(0, idx-1).Draw(t, "in"))
 		md.Drops = append(md.Drops, genDrop(t))
